@@ -1,6 +1,6 @@
 (* C19/Properties.v — the property theorems, nothing else.  Each is closed by [exact lemma]
    and followed by Print Assumptions (captured into the evidence by the check driver). *)
-From Verif Require Import Common.Base C19.Model C19.Proofs1 C19.Proofs2 C19.Proofs3 C19.Proofs4 C19.Proofs5 C19.Proofs6 C19.Proofs7 C19.Proofs8 C19.Proofs9 C19.Proofs10 C19.Translated.
+From Verif Require Import Common.Base C19.Model C19.Proofs1 C19.Proofs2 C19.Proofs3 C19.Proofs4 C19.Proofs5 C19.Proofs6 C19.Proofs7 C19.Proofs8 C19.Proofs9 C19.Proofs10 C19.Proofs11 C19.Proofs12 C19.Translated C19.Checker.
 From Verif Require Generated.C19ExpHelper.
 Local Open Scope Z_scope.
 
@@ -155,6 +155,21 @@ Theorem exporter_accounting_law : forall o outs ops,
   = s_offered st - qsum (s_queue st) + s_wfr_failed st.
 Proof. exact exporter_excess_l. Qed.
 
+(* every Send through a queue (no wait_for_result) either is taken (returns nil: accepted, or a
+   zero-size element dropped) and enqueue_failed does not move, or is REFUSED - queue full (1),
+   element too large (2), the Encoding cannot marshal it (4, persistent queue), or with block_on_overflow the producer gave up while waiting for room and got
+   its context's error back (3) - and then the request is not enqueued and enqueue_failed moves by
+   exactly its items, whatever the reason *)
+Theorem refused_send_is_counted : forall o st n c,
+  o_sig o <> Profiles -> qc o = Some c -> is_wfr o = false ->
+  let st' := offer o st n in
+  let enq s := lget (ExpEnqFailed (o_sig o)) (s_led s) in
+  (s_sends st' = s_sends st ++ [0] /\ enq st' = enq st) \/
+  (exists k, s_sends st' = s_sends st ++ [k] /\ 1 <= k <= 4 /\
+             enq st' = enq st + n /\ s_queue st' = s_queue st /\ s_qsize st' = s_qsize st /\
+             (k = 3 -> q_block c = true) /\ (k = 1 -> q_block c = false)).
+Proof. exact refused_send_counted_l. Qed.
+
 (* exporter_balance proved for every history on a volatile pipeline (no queue or memory queue,
    where nothing is ever stored) in which no wait-for-result Send returned an export error:
    regardless of batching, splitting, retries, partial failures, queue-full refusals and
@@ -249,7 +264,35 @@ Theorem exporter_span_sums_match : forall o outs ops, o_sig o <> Profiles ->
   let l := s_led (run_exporter o outs ops) in
   lget (SpanSent (o_sig o)) l = (if o_tracing o then lget (ExpSent (o_sig o)) l else 0) /\
   lget (SpanFailed (o_sig o)) l = (if o_tracing o then lget (ExpFailed (o_sig o)) l else 0).
-Proof. exact (fun o outs ops H => run_exporter_SP o H outs ops). Qed.
+Proof. exact (fun o outs ops H => run_exporter_span o H outs ops). Qed.
+
+(* ---- round 5: clause audit ---------------------------------------------------------------------- *)
+
+(* one scrape (either controller): the receiver counters move by the items offered downstream, the
+   side follows the consumer's result - recorded under the METRICS counters (own signal for the
+   metrics controller; S5 for the logs controller) - and no receiver counter of another signal moves *)
+Theorem scrape_op_balance : forall rc k rs e,
+  lget (RecvAccepted Metrics) (scrape rc k rs e) + lget (RecvRefused Metrics) (scrape rc k rs e) = scr_offered rs /\
+  (e = false -> lget (RecvAccepted Metrics) (scrape rc k rs e) = scr_offered rs /\ lget (RecvRefused Metrics) (scrape rc k rs e) = 0) /\
+  (e = true -> lget (RecvAccepted Metrics) (scrape rc k rs e) = 0 /\ lget (RecvRefused Metrics) (scrape rc k rs e) = scr_offered rs) /\
+  (forall s, s <> Metrics -> lget (RecvAccepted s) (scrape rc k rs e) = 0 /\ lget (RecvRefused s) (scrape rc k rs e) = 0).
+Proof. exact scrape_op_l. Qed.
+
+(* "for all signals": an exporter of the PROFILES signal moves no instrument at all, for every
+   configuration and history ("No metrics recorded for profiles") ... *)
+Theorem exporter_profiles_uncounted : forall o outs ops c,
+  o_sig o = Profiles -> is_span_counter c = false -> lget c (s_led (run_exporter o outs ops)) = 0.
+Proof. exact (fun o outs ops c H Hc => run_exporter_quiet o H outs ops c Hc). Qed.
+
+(* ... hence the balance clause is false for it as soon as anything is given (by design: no instruments exist) *)
+Theorem exporter_balance_profiles_refuted : exists o outs ops,
+  o_sig o = Profiles /\ Forall eop_nonneg ops /\
+  let st := run_exporter o outs ops in ~ balance o st /\ s_offered st = 5 /\ s_stored st = 0.
+Proof. exact profiles_refuted_l. Qed.
+
+(* the decidable clause checker evaluated over every observed case is the Prop-level clause *)
+Theorem clause_checker_sound : forall c, prop_ok c = true <-> prop_clause c.
+Proof. exact prop_ok_spec. Qed.
 
 (* ---- translator obligations: hand-written pieces = what T1 generates from the current source ------ *)
 
@@ -341,6 +384,7 @@ Print Assumptions pipeline_balance.
 Print Assumptions pipeline_op_balance.
 Print Assumptions pipeline_counts_offered_not_left.
 Print Assumptions exporter_accounting_law.
+Print Assumptions refused_send_is_counted.
 Print Assumptions exporter_balance_partial.
 Print Assumptions exporter_balance_persistent_partial.
 Print Assumptions exporter_persistent_excess.
@@ -355,6 +399,10 @@ Print Assumptions gauges_exact_memory_burst.
 Print Assumptions gauges_exact_persistent_refuted.
 Print Assumptions gauges_persistent_never_overcounts.
 Print Assumptions exporter_span_sums_match.
+Print Assumptions scrape_op_balance.
+Print Assumptions exporter_profiles_uncounted.
+Print Assumptions exporter_balance_profiles_refuted.
+Print Assumptions clause_checker_sound.
 Print Assumptions to_num_items_is_translated.
 Print Assumptions obs_end_op_is_translated.
 Print Assumptions batch_validate_is_translated.
